@@ -24,8 +24,10 @@ TRUSTED_BASE = [
 ASSUMPTIONS = [
     "std::fs::canonicalize behaves as glibc realpath over a tree of directories, regular files and symlinks (no hard links to "
     "directories, no mount points, no permissions, PATH_MAX/NAME_MAX not reached); tied to the real libc on every run",
-    "names in the tree are ASCII: the lossy UTF-8 conversion of the decoded parameter never creates or removes an ASCII byte, "
-    "so a non-ASCII component can only fail to exist",
+    "names in the tree are arbitrary octet strings without '/' and NUL; the lossy UTF-8 conversion of the decoded parameter "
+    "(String::from_utf8_lossy) is modelled (pc_utf8_lossy) and tied to the real one by requests with cut, overlong, surrogate and "
+    "out-of-range sequences against files named U+FFFD; the same conversion of the PATH of the request is not modelled (it never "
+    "creates or removes an ASCII byte and the endpoint prefix is ASCII)",
     "the tree changes BETWEEN requests (any number of times, any of the modelled operations), not during one: the window between "
     "the two canonicalize calls of one request, and between them and the unit's later File::open, is outside the model (TOCTOU)",
     "the working directory of the process and its ancestors are not renamed, removed or replaced while the unit runs",
@@ -48,6 +50,9 @@ BASE = ["D upd", "F upd/a.mrt", "D upd/sub", "F upd/sub/b.mrt", "D out", "F out/
 EXTRA = [
     ["D upd2", "F upd2/x"], ["D up", "F up/x"], ["D upd-evil", "F upd-evil/x"],
     ["D upd/sub/deep", "F upd/sub/deep/c.mrt"], ["F upd/..."], ["F upd/..a"], ["D upd/.h", "F upd/.h/f"],
+    ["F upd/updates.%E9.mrt", "L upd/latest.mrt updates.%E9.mrt"], ["D upd/d%FF", "F upd/d%FF/x.mrt", "L upd/dlnk d%FF", "L upd/dx d%FF/x.mrt"],
+    ["D n%E9", "F n%E9/y.mrt", "L nlnk n%E9", "L upd/tonl ../n%E9"], ["F out/s%E9cret", "L upd/outlat ../out/s%E9cret"],
+    ["F upd/%C3%A9.mrt"], ["F upd/%EF%BF%BD.mrt"], ["F upd/%EF%BF%BD%EF%BF%BD.mrt"], ["F upd/%F0%9F%92%A9.mrt"],
     ["F upd/sp%20ace"], ["F upd/pl+us"], ["F upd/pc%25t"], ["F upd/%2561.mrt"], ["D upd/a.mrt.d"], ["F upd/sub/a.mrt"],
 ]
 LINKS = [
@@ -58,6 +63,11 @@ LINKS = [
     "L upd/far ../../../../../../../../../../../../../../../..", "L upd/sub/home @", "L out/in2 @/upd/sub/b.mrt",
     "L upd/l%20sp sub", "L upd/etc /etc",
 ]
+# names whose octets are not UTF-8 (asked for as such they arrive with U+FFFD, through a link they are reached), valid
+# multi-byte names, and byte strings whose lossy reading is one / two U+FFFD (files with exactly those names exist)
+OCTETS = ["latest.mrt", "dlnk/x.mrt", "dx", "updates.\xe9.mrt", "d\xff/x.mrt", "tonl/y.mrt", "outlat", "\xc3\xa9.mrt", "\xf0\x9f\x92\xa9.mrt",
+          "\xff.mrt", "\xe2\x82.mrt", "\xf0\x9f\x92.mrt", "\xc2.mrt", "\xf5.mrt", "\x80.mrt", "\xe0\x80.mrt", "\xc0\xaf.mrt", "\xed\xa0.mrt",
+          "\xf4\x90.mrt", "\xe2\x82\xe2\x82.mrt", "\xf0\x9f\xf0\x9f.mrt", "\xef\xbf\xbd.mrt", "\xef\xbf\xbd\xef\xbf\xbd.mrt", "\xc3.mrt\xa9"]
 GOOD = ["a.mrt", "sub/b.mrt", "in", "inabs/b.mrt", "viaout", "sub/up/upd/a.mrt", "dot/a.mrt", "dotdot/upd/sub/b.mrt", "tsl/b.mrt",
         "sub/deep/c.mrt", "sub/deep/../b.mrt", "...", "..a", ".h/f", "sp ace", "pl+us", "pc%t", "%61.mrt", "sub/a.mrt", "sub", "", ".",
         "sub/home/upd/a.mrt", "l sp/b.mrt", "esc/back/a.mrt", "c3", "far/@/upd/a.mrt", "sub/..", "sub/up/out/back/sub/b.mrt"]
@@ -68,7 +78,7 @@ BAD = ["../out/secret", "esc/secret", "escabs/secret", "escf", "sub/up/out/secre
        "../../../../../../../../../../../../../../../../../../etc/passwd", "a.mrt\x00", "\x00", "sub/\x00/b.mrt"]
 SEGS = ["..", ".", "", "sub", "a.mrt", "b.mrt", "in", "esc", "out", "upd", "dot", "dotdot", "up", "deep", "nosuch", "secret", "back",
         "home", "x", "upd2", "rootl", "loop1", "tsl", "..."]
-UPD = [("@/upd", 50), ("@/ulnk", 6), ("@/ulnk2", 4), ("@/upd/", 4), ("@/upd/sub/..", 4), ("@/./upd//", 3), ("upd", 4), ("./upd/.", 2),
+UPD = [("@/nlnk", 3), ("@/n%E9", 3), ("@/upd/d%FF", 2), ("@/upd/dlnk", 2), ("@/upd", 50), ("@/ulnk", 6), ("@/ulnk2", 4), ("@/upd/", 4), ("@/upd/sub/..", 4), ("@/./upd//", 3), ("upd", 4), ("./upd/.", 2),
        ("-", 6), ("@/nonexistent", 3), ("@/upd/a.mrt", 3), ("@/upd/sub", 5), ("@/out/back", 3), ("@/upd/loop1", 2), ("@", 3),
        ("@/upd/dang", 2), ("@/out", 2), ("@/upd%00", 1)]
 PATHS = [("/mrt/u/queue", 88), ("/mrt/u/queue/", 2), ("/mrt/u/queuexyz", 2), ("/mrt/u/%71ueue", 2), ("/mrt/u/status", 1), ("/mrt/u/", 1),
@@ -93,9 +103,11 @@ def enc_value(rng, s, p):
 
 
 def gen_value(rng):
-    k = rng.weighted([("good", 40), ("bad", 30), ("rand", 22), ("junk", 8)])
+    k = rng.weighted([("good", 36), ("octets", 8), ("bad", 28), ("rand", 20), ("junk", 8)])
     if k == "good":
         v = rng.choice(GOOD)
+    elif k == "octets":
+        v = rng.choice(OCTETS)
     elif k == "bad":
         v = rng.choice(BAD)
     elif k == "rand":
@@ -223,6 +235,14 @@ LAYOUTS = [
               ["M spool.1 spool"], ["X spool/in", "L spool/in ../priv"], ["X spool/in", "L spool/in ../archive"], ["M priv spool/in2"],
               ["M spool/in archive/in"], ["M archive/old.mrt spool/old.mrt"], ["F spool/new.mrt"], ["X spool/a.mrt"],
               ["X spool/a.mrt", "L spool/a.mrt ../priv/key"]]),
+    # an archive copied from an old system: Latin-1 file names, a directory whose name is not UTF-8, links with names one can ask for
+    dict(tree=["D arch", "F arch/updates.%E9.mrt", "L arch/latest.mrt updates.%E9.mrt", "D d%FF", "F d%FF/x.mrt", "D d%FF/s%E9", "F d%FF/s%E9/z.mrt",
+               "L d%FF/sub s%E9", "L cur arch", "L arch/over ../d%FF"],
+         upd=["@/cur", "@/arch", "@/d%FF", "@/arch/over", "@/d%FF/sub", "@/d%FF/s%E9/"],
+         files=["latest.mrt", "x.mrt", "z.mrt", "sub/z.mrt", "updates.\xe9.mrt", "s\xe9/z.mrt", "over/x.mrt", "../d\xff/x.mrt", "../arch/latest.mrt", "", "sub"],
+         mut=[["P cur d%FF"], ["P cur arch"], ["P cur d%FF/sub"], ["P arch/latest.mrt ../d%FF/x.mrt"], ["P arch/latest.mrt updates.%E9.mrt"],
+              ["M arch/updates.%E9.mrt arch/u.mrt"], ["M arch/u.mrt arch/updates.%E9.mrt"], ["M d%FF dff", "L d%FF dff"], ["M d%FF/s%E9 arch/s%E9"],
+              ["X arch/latest.mrt", "L arch/latest.mrt x%FE"], ["F arch/x%FE"], ["M arch arch%FC", "L arch arch%FC"], ["X cur", "L cur d%FF/s%E9"]]),
     # the unit is started before its directory exists, or while a component is still missing
     dict(tree=["D real", "D real/dir", "F real/dir/f.mrt", "D other", "D other/dir", "F other/dir/g.mrt"],
          upd=["@/late/dir", "@/lnk/dir", "@/lnk/dir/", "lnk/dir", "@/late"],
@@ -277,7 +297,7 @@ def gen_random_case(rng, k, root):
     dirs, every = [""], []
     for _ in range(rng.range(4, 14)):
         parent = rng.choice(dirs)
-        name = rng.choice(RNAMES) if rng.chance(92) else rng.choice([".x", "a%20b", "..."])
+        name = rng.choice(RNAMES) if rng.chance(92) else rng.choice([".x", "a%20b", "...", "%E9", "b%FFc", "%C3%A9"])
         path = (parent + "/" + name) if parent else name
         kind = rng.weighted([("D", 40), ("F", 28), ("L", 32)])
         if path in every and rng.chance(90):
@@ -317,7 +337,7 @@ def gen_random_case(rng, k, root):
                 ops.append("%s %s" % (rng.choice("DF"), pth()))
             if asked and rng.chance(60):
                 ops.append(rng.choice(asked))
-        v = rand_path(rng, 1, 5)
+        v = rand_path(rng, 1, 5, extra=[("\xe9", 3), ("b\xffc", 2), ("\xc3\xa9", 3)])
         if rng.chance(10):
             v = "@/" + v
         if rng.chance(8):
@@ -348,6 +368,15 @@ def _results(out):
     return [(t[i], t[i + 1], t[i + 2]) for i in range(0, len(t) - 2, 3)]
 
 
+def _is_utf8(tok):
+    from urllib.parse import unquote_to_bytes
+    try:
+        unquote_to_bytes(tok).decode("utf-8")
+        return True
+    except UnicodeDecodeError:
+        return False
+
+
 _TREEOP = re.compile(r"^[DFLPXM] ")
 
 
@@ -374,6 +403,8 @@ def nontrivial(case, out):
     rs = _results(out)
     if _answer_changed(case, out):
         return True
+    if any(enq != "-" and not _is_utf8(enq) for st, enq, why in rs):
+        return True
     for q, (st, enq, why) in zip(qs, rs):
         if why.endswith(":9>"):
             return True
@@ -395,6 +426,8 @@ def classify(case, out):
             ks.add("accepted-but-unit-failed")
         if enq.startswith("OUT:"):
             ks.add("enqueued-outside-scratch-root")
+        if enq != "-" and not _is_utf8(enq):
+            ks.add("enqueued-octets-not-utf8")
         if enq != "-":
             ks.add("enqueued-text-canonical" if all(e.endswith(":c") for e in enq.split(",")) else "enqueued-text-NOT-canonical")
     ops = case.split(";")
@@ -456,7 +489,27 @@ def corpus():
         "R %s/h7;%s;U @/current;%s;P day1 day2;M day1 day2;M day1 day1/x;X nosuch;F current/via-link;D day1//x;D day1/./x;D day1/../x;F day1/%%00;%s;"
         "M day1 day2/moved;%s;%s" % (root, day, q("one.mrt"), q("one.mrt"), q("one.mrt"), q("../day2/moved/one.mrt")),
     ]
-    return hist + [
+    lat = "D upd;F upd/updates.%E9.mrt;L upd/latest.mrt updates.%E9.mrt;D out;F out/s%E9cret;L upd/outlat ../out/s%E9cret"
+    octets = [
+        # seed C20-c2's demonstration: an ASCII-named link to a Latin-1 named file inside (accepted, whatever the unit answers), the name
+        # itself asked for as %E9 (arrives as U+FFFD: not found), a link to a Latin-1 named file outside (refused)
+        "R %s/n0;%s;U @/upd;%s;%s;%s;%s;%s;%s;%s" % (root, lat, q("latest.mrt"), q("latest.mrt", "s"), q("latest.mrt", "e"), q("latest.mrt", "d"),
+                                                     q("updates.%E9.mrt"), q("outlat"), q("./latest.mrt")),
+        # update_path resolves to a directory whose name is not UTF-8 (through a link, and configured as such): every valid request
+        "R %s/n1;D d%%FF;F d%%FF/x.mrt;L ulnk d%%FF;U @/ulnk;%s;%s;U @/d%%FF;%s;%s;U @/d%%FF/;%s" % (root, q("x.mrt"), q(""), q("x.mrt"), q("nosuch"), q("./x.mrt")),
+        # a non-UTF-8 name in an intermediate component of the resolved location
+        "R %s/n2;D upd;D upd/m%%E9;F upd/m%%E9/f.mrt;L upd/mid m%%E9;L upd/direct m%%E9/f.mrt;U @/upd;%s;%s;%s;%s" % (
+            root, q("mid/f.mrt"), q("direct"), q("m%E9/f.mrt"), q("mid")),
+        # the lossy reading of the parameter: valid multi-byte names are asked for directly; FF, a cut 3-byte and a cut 4-byte sequence are ONE
+        # U+FFFD each (the file named EF BF BD is found), E0 80 / C0 AF / ED A0 / F4 90 are TWO
+        "R %s/n3;D upd;F upd/%%C3%%A9.mrt;F upd/%%F0%%9F%%92%%A9.mrt;F upd/%%EF%%BF%%BD.mrt;F upd/%%EF%%BF%%BD%%EF%%BF%%BD.mrt;U @/upd;%s" % (
+            root, ";".join(q(v) for v in ["%C3%A9.mrt", "%F0%9F%92%A9.mrt", "%FF.mrt", "%E2%82.mrt", "%F0%9F%92.mrt", "%C2.mrt", "%80.mrt", "%E0%80.mrt",
+                                          "%C0%AF.mrt", "%ED%A0.mrt", "%F4%90.mrt", "%EF%BF%BD.mrt", "%F5%F5.mrt", "%F8%88%80%80%80.mrt"])),
+        # ... and histories: the Latin-1 file renamed to ASCII and back under a link that stays, `cur` re-pointed to the non-UTF-8 directory
+        "R %s/n4;D arch;F arch/updates.%%E9.mrt;L arch/latest.mrt updates.%%E9.mrt;D d%%FF;F d%%FF/x.mrt;L cur arch;U @/cur;%s;M arch/updates.%%E9.mrt arch/u.mrt;%s;"
+        "P arch/latest.mrt u.mrt;%s;P cur d%%FF;%s;%s" % (root, q("latest.mrt"), q("latest.mrt"), q("latest.mrt"), q("x.mrt"), q("latest.mrt")),
+    ]
+    return hist + octets + [
         # inside: plain, via '..', via links (relative, absolute, out-and-back), encoded
         "R %s/c0;%s;U @/upd;%s;%s;%s;%s;%s;%s;%s" % (root, t, q("a.mrt"), q("sub/../sub//b.mrt"), q("in"), q("inabs/b.mrt"), q("viaout"),
                                                        q("%73ub%2Fb.mrt"), q("sub/up/upd/a.mrt")),
